@@ -183,7 +183,9 @@ func TestVerifC03ServerAPI(t *testing.T) {
 				paths = append(paths, strings.ReplaceAll(strings.ReplaceAll(rt.Path, ":x", "a"), ":y", "b"))
 			}
 		}
-		paths = append(paths, "/", "/v1", "/v2/v1/s0", "/zz/s0/a")
+		paths = append(paths, "/", "/v1", "/v2/v1/s0", "/zz/s0/a",
+			// unmatched paths whose raw form needs cleaning: still a plain 404 (never a redirect)
+			"/zz//x", "/zz/./x", "/zz/b/../../..", "/debug/pprof/", "/debug/vars")
 		v0 := m.ViolCount()
 		for _, p := range paths {
 			for _, method := range []string{"GET", "POST", "PUT", "DELETE", "TRACE", "get"} {
